@@ -239,6 +239,26 @@ REG['C04'] = dict(
     'judged',
     stubs=['constant external load function', 'RecordingRule wrapper (when the duty is held by ConstantPWM)'])
 
+REG['C19'] = dict(
+    oracle='c19', profiles=[('quant', 1, None)],
+    quick=20000, thorough=1000000,
+    vacuity=['steps', 'op_new', 'op_add', 'op_sub', 'op_mul', 'op_div',
+             'op_abs', 'op_neg', 'op_to', 'inplace_conversions',
+             'raised_ValueError', 'raised_TypeError', 'F_BADPARAM',
+             'bad_no_load_speed<=0', 'bad_teeth<minimum', 'bad_helix>=90deg',
+             'bad_worm_helix>limit', 'bad_pwm_outside',
+             'bad_no_load_current>=maximum'],
+    digest_sample_every=0,
+    rule='seeded straight-line programs (3..14 steps) of construct, + - * /, '
+    'abs, neg, to, to(inplace) over all 13 kinds and units with operands of '
+    'either sign, zero and magnitudes 1e-30..1e30, biased towards results '
+    'that leave the valid range; every live object inspected after every '
+    'step (also after steps that raised); plus 2..5 component constructions '
+    'with one non-physical parameter each (must raise ValueError); distinct '
+    '= (first ten operations, exception classes seen); non-trivial = at '
+    'least one program step inspected',
+    stubs=['none'])
+
 NOT_APPLICABLE = [
     {'property_id': 'C05',
      'reason': 'stateless function of (value, from-unit, to-unit): no schedule, clock, fault, I/O or history for a simulator to act on; its quantifier is decided by exhaustive enumeration of unit pairs, a different technique (DESIGN.md section 6)'},
